@@ -355,11 +355,16 @@ def bits_that_matter(results):
     return "+".join(out) or "none"
 
 
-def classify(shrunk, model_report, results):
-    """stable class label: a predicate over the (shrunk) failing case, suffixed by the switches that change its outcome"""
-    bits = bits_that_matter(results)
+PROJECTION = {(0, 7): "esc", (1, 6): "cache", (1, 5): "hoist", (1, 3): "fused"}
+
+
+def classify(shrunk, model_report, results, projected=None):
+    """stable class label: a predicate over the (shrunk) failing case, suffixed by the switches that change its outcome
+    (`projected`: the program was shrunk for the effect of that single switch against the conservative configuration)"""
+    bits = projected or bits_that_matter(results)
     # hoist family: the loop-hoist switch matters and with hoisting disabled all configurations agree
-    hoistish = "hoist" in bits.split("+") and len({r for (esc_, sw_), r in results.items() if sw_ & 2}) == 1
+    hoistish = "hoist" in bits_that_matter(results).split("+") and len({r for (esc_, sw_), r in results.items() if sw_ & 2}) == 1 \
+        and projected in (None, "hoist", "fused")
     # the suffix names the placement switches only (esc / cache); hoist and fused are leftovers of other statements
     bits = "+".join(b for b in bits.split("+") if b in ("esc", "cache")) or bits
     if model_report is not None and model_report.get("reach_ok") == "0":
@@ -595,8 +600,12 @@ def main():
             diffs.append("model: collector produced a table whose outer pointers do not decrease")
         if rep["occ_ok"] != "1":
             diffs.append("model: escape_sound's conclusion fails on this program (theorem/model inconsistency)")
-        if rep["honest"] == "1" and rep["ev_ok"] != "1":
+        if rep["honest"] != "1":
+            diffs.append("model: a contains_direct_eval flag is not truthful on this program (theorem collect_flags_truthful / model inconsistency)")
+        if rep["ev_ok"] != "1":
             diffs.append("model: eval_entered_scopes_escape's conclusion fails on this program")
+        if rep["reach_ok"] != "1":
+            diffs.append("analysis defect: a non-global binding that the code of a direct eval can name stays a register (eval_reach_ok = false)")
         run.count(("flags", t), nontrivial=nontrivial[i])
         if diffs:
             corr_bad.append({"id": i, "js": t, "diffs": diffs[:6]})
@@ -688,14 +697,24 @@ def main():
     classes = {}
     max_shrink = 8 if run.quick else 40
 
-    def handle(i):
-        (_i, p, t, f) = case_by_id[i]
+    def jobs_for(i):
+        """which pair(s) of configurations the shrinker keeps different: one job per single switch whose effect shows
+        against the fully conservative configuration (so that a program with two independent defects is split into
+        two minimal programs), else the first differing pair"""
         r = res[i]
+        cons = (1, 7)
+        singles = [c_ for c_ in ((0, 7), (1, 6), (1, 5), (1, 3)) if r[c_] != r[cons]]
+        if singles and not i.startswith("corpus-"):
+            return [(i, c_, cons) for c_ in singles]
         base = r[(0, 0)]
-        other = next(c for c in CONFIGS if r[c] != base)
+        return [(i, (0, 0), next(c_ for c_ in CONFIGS if r[c_] != base))]
+
+    def handle(job):
+        (i, first, other) = job
+        (_i, p, t, f) = case_by_id[i]
         shrunk, shrunk_js, tests = p, t, 0
         if p is not None and not i.startswith("corpus-"):        # corpus cases are minimized already
-            pa, pb = Proc(paths["js"], 0, 0), Proc(paths["js"], other[0], other[1])
+            pa, pb = Proc(paths["js"], first[0], first[1]), Proc(paths["js"], other[0], other[1])
             try:
                 def differs(q):
                     try:
@@ -712,7 +731,7 @@ def main():
                         return False
                     return a != b
                 try:
-                    shrunk, tests = shrink(p, differs, budget=100 if run.quick else 300)
+                    shrunk, tests = shrink(p, differs, budget=300 if run.quick else 500)
                     shrunk_js = A.to_js(shrunk)
                 except Exception as ex_:          # a shrinker problem must never hide the (unshrunk) counterexample
                     log("shrink failed on %s: %r" % (i, ex_))
@@ -720,7 +739,7 @@ def main():
             finally:
                 pa.close()
                 pb.close()
-        return i, shrunk, shrunk_js, other, tests
+        return i, shrunk, shrunk_js, first, tests
 
     # corpus cases first, then round-robin over the switch signatures (rare signatures get their turn)
     by_sig = {}
@@ -732,36 +751,37 @@ def main():
         for s_ in sigs:
             if by_sig[s_]:
                 order.append(by_sig[s_].pop(0))
-    max_shrink = max(max_shrink, len([i for i in order if i.startswith("corpus-")]) + (3 if run.quick else 30))
+    max_shrink = max(max_shrink, len([i for i in order if i.startswith("corpus-")]) + (10 if run.quick else 60))
     failing = order
-    todo = failing[:max_shrink]
+    todo = [j for i in failing[:max_shrink] for j in jobs_for(i)]
     with ThreadPoolExecutor(max_workers=min(12, vlib.NCPU)) as ex:
         shrunk_all = list(ex.map(handle, todo))
     # re-run the shrunk programs under all 16 configurations and the model (for the class predicate)
     if shrunk_all:
-        sids = ["s-" + x[0] for x in shrunk_all]
+        shrunk_all = [(i, sp, sjs, other, tests, "s%d-%s" % (k, i)) for k, (i, sp, sjs, other, tests) in enumerate(shrunk_all)]
+        sids = [x[5] for x in shrunk_all]
         sres = run_configs(paths["js"], [x[2] for x in shrunk_all], sids)
         srep = {}
         if model_ok:
             ml = []
-            for (i, sp, sjs, other, tests) in shrunk_all:
+            for (i, sp, sjs, other, tests, sid_) in shrunk_all:
                 if sp is not None:
                     try:
                         sx, names = G.to_c04(sp)
-                        ml.append("run s-%s %d %s" % (i, 1 if sp["p_strict"] else 0, sx))
+                        ml.append("run %s %d %s" % (sid_, 1 if sp["p_strict"] else 0, sx))
                     except G.Unsupported:
                         pass
             for k, m in by_id(run_batch([MODEL_BIN], ml)).items():
                 if m and m[0] == "ok":
                     srep[k] = {"honest": m[2], "reach_ok": m[6]}
-        for (i, sp, sjs, other, tests) in shrunk_all:
-            r16 = sres["s-" + i]
+        for (i, sp, sjs, other, tests, sid_) in shrunk_all:
+            r16 = sres[sid_]
             if len(set(r16.values())) == 1:
                 r16, sjs, sp = res[i], case_by_id[i][2], case_by_id[i][1]      # shrinking lost the difference under 16 configs: keep the original
             if sp is None:
                 cls = classify_text(sjs, r16)
             else:
-                cls = classify(sp, srep.get("s-" + i) or model_reports.get(i), r16)
+                cls = classify(sp, srep.get(sid_) or model_reports.get(i), r16, PROJECTION.get(other))
             classes[cls] = classes.get(cls, 0) + 1
             groups = {}
             for c, v in r16.items():
